@@ -498,6 +498,10 @@ class DirectionalVariogram(Variogram):
 
     @bandwidth.setter
     def bandwidth(self, width):
+        # remember the setting as passed (a quantile has to be resolved
+        # again if the distances change)
+        self._bandwidth_passed_value = width
+
         # check if quantiles is given
         if isinstance(width, str):
             # TODO document and handle more exceptions
@@ -514,6 +518,13 @@ class DirectionalVariogram(Variogram):
 
         # reset groups and direction mask cache on bandwidth change
         self._reset_direction_dependent()
+
+    def set_dist_function(self, func):
+        super(DirectionalVariogram, self).set_dist_function(func)
+
+        # a bandwidth given as quantile ('q33') refers to the distances
+        if isinstance(getattr(self, '_bandwidth_passed_value', None), str):
+            self.bandwidth = self._bandwidth_passed_value
 
     def set_directional_model(self, model_name):
         """Set new directional model
